@@ -32,6 +32,8 @@ pub enum Schedule {
     Perm(Vec<u8>),
     /// in order, with fragment `frag` delivered an extra time before position `at`
     Dup { frag: u8, at: u8 },
+    /// a permutation with one fragment delivered an extra time before position `at`
+    PermDup { order: Vec<u8>, frag: u8, at: u8 },
 }
 
 #[derive(Debug, Clone, Serialize, Deserialize)]
@@ -45,6 +47,13 @@ fn apply(frags: &[Vec<u8>], s: &Schedule) -> Vec<Vec<u8>> {
         Schedule::Perm(p) => p.iter().filter_map(|i| frags.get(*i as usize).cloned()).collect(),
         Schedule::Dup { frag, at } => {
             let mut v = frags.to_vec();
+            if let Some(f) = frags.get(*frag as usize) {
+                v.insert((*at as usize).min(v.len()), f.clone());
+            }
+            v
+        }
+        Schedule::PermDup { order, frag, at } => {
+            let mut v: Vec<Vec<u8>> = order.iter().filter_map(|i| frags.get(*i as usize).cloned()).collect();
             if let Some(f) = frags.get(*frag as usize) {
                 v.insert((*at as usize).min(v.len()), f.clone());
             }
@@ -286,7 +295,7 @@ impl Prop for C08 {
     fn rule(&self) -> String {
         "bases = responses of the reference models that fragment into 2-6 datagrams (Valve Source split incl. bzip2-compressed and the size-less variant, GoldSrc split, \
          GameSpy 1 parts, GameSpy 3 splitnum packets, Unreal 2 rule and player lists). For every enumerated base ALL permutations of its fragments (n! <= 720) and every \
-         single-fragment duplication at every position are delivered; random cases add further bases with random schedules. Oracle (metamorphic, anchored): the in-order \
+         single-fragment duplication at every position are delivered; random cases add further bases with random schedules, including a permutation combined with a duplication. Oracle (metamorphic, anchored): the in-order \
          result must equal the model's expected response, every permutation must give the same result as in-order (Unreal 2: modulo list order, it has no sequence \
          numbers), a duplication must give an error or the in-order result. All gather toggles are Enforce so that a failed section is an error, not an absent section. \
          non-trivial = the schedule is not the identity; distinct = digest of (base, schedule)"
@@ -306,8 +315,16 @@ impl Prop for C08 {
         (base_strategy(), any::<prop::sample::Index>(), any::<prop::sample::Index>(), any::<u64>(), prop::bool::weighted(0.3))
             .prop_map(|(base, a, b, seed, dup)| {
                 let n = base.fragments().map(|f| f.len()).unwrap_or(1).max(1);
-                let schedule = if dup {
+                let schedule = if dup && seed % 2 == 0 {
                     Schedule::Dup { frag: a.index(n) as u8, at: b.index(n + 1) as u8 }
+                } else if dup {
+                    let mut p: Vec<u8> = (0 .. n.min(255) as u8).collect();
+                    let mut s = seed;
+                    for i in (1 .. p.len()).rev() {
+                        s = s.wrapping_mul(6364136223846793005).wrapping_add(1442695040888963407);
+                        p.swap(i, (s >> 33) as usize % (i + 1));
+                    }
+                    Schedule::PermDup { order: p, frag: a.index(n) as u8, at: b.index(n + 1) as u8 }
                 } else {
                     let mut p: Vec<u8> = (0 .. n.min(255) as u8).collect();
                     let mut s = seed;
@@ -363,6 +380,7 @@ impl Prop for C08 {
             Schedule::Perm(_) if identity => "in-order",
             Schedule::Perm(_) => "permutation",
             Schedule::Dup { .. } => "duplication",
+            Schedule::PermDup { .. } => "permutation+duplication",
         });
         if let Base::Valve { st, section } = &case.base {
             let sec = [&st.t_info, &st.t_players, &st.t_rules][*section as usize];
@@ -405,8 +423,8 @@ impl Prop for C08 {
                     o.fail(format!("C08|{name}|permutation|result differs|{path}"), json!({"order": p, "fragments": n, "in_order": brief(&in_order), "observed": brief(&v), "wire": log}));
                 }
             }
-            (Schedule::Dup { .. }, Res::Err(_)) => {}
-            (Schedule::Dup { frag, at }, Res::Ok(v)) => {
+            (Schedule::Dup { .. } | Schedule::PermDup { .. }, Res::Err(_)) => {}
+            (Schedule::Dup { frag, at } | Schedule::PermDup { frag, at, .. }, Res::Ok(v)) => {
                 if v != in_order {
                     let path = diff_path(&in_order, &v, &[".rules", "unused_entries"]);
                     o.fail(format!("C08|{name}|duplication|successful but different|{path}"), json!({"frag": frag, "at": at, "fragments": n, "in_order": brief(&in_order), "observed": brief(&v), "wire": log}));
